@@ -35,6 +35,7 @@ type shimSim struct {
 	pendConf []map[string]interface{}
 	seq      int
 	gang     map[string]bool
+	freed    []string // keys the shim released itself (by key): a pod name can come back (key reuse)
 }
 
 // coreConfig generates configurations until one passes the core's own validation.
@@ -162,8 +163,16 @@ func (s *shimSim) absorb(msgs []map[string]interface{}) {
 // the window is exercised by hand-written corpus scenarios instead (corpus/C09, corpus/C04).
 const interruptP = 0.0
 
+// waitExpiredP: probability that a generated scheduling cycle runs with an expired reservation wait timeout
+const waitExpiredP = 0.08
+
 func (s *shimSim) scheduleOp(p float64) map[string]interface{} {
 	op := map[string]interface{}{"op": "schedule"}
+	// now and then a cycle sees the reservations as older than the reservation wait timeout (60 minutes in production):
+	// reservations whose ask has no headroom any more are cancelled
+	if s.c.chance(waitExpiredP) {
+		op["waitExpired"] = true
+	}
 	if !s.c.chance(p) {
 		return op
 	}
@@ -338,6 +347,14 @@ func coreHistory(c *Ctx, d *coreDrv) {
 				app = "app-unknown"
 			}
 			key := s.newKey("k")
+			if len(s.freed) > 0 && c.chance(0.12) {
+				// the key of an allocation / ask the shim released earlier is used again (a pod re-created under its old name)
+				i := c.pick(len(s.freed))
+				if _, live := s.asks[s.freed[i]]; !live {
+					key = s.freed[i]
+				}
+				s.freed = append(s.freed[:i], s.freed[i+1:]...)
+			}
 			ask := &shimAsk{app: app, key: key, res: s.askRes()}
 			op := map[string]interface{}{"op": "alloc", "app": app, "key": key, "res": encRes(ask.res), "ctime": s.seq, "prio": c.pick(3), "preemptOther": c.chance(0.5)}
 			if s.gang[app] && c.chance(0.7) {
@@ -374,6 +391,7 @@ func coreHistory(c *Ctx, d *coreDrv) {
 				emitAndAbsorb(map[string]interface{}{"op": "release", "app": a.app, "key": k, "type": typ})
 				delete(s.asks, k)
 				delete(s.bound, k)
+				s.freed = append(s.freed, k)
 			} else {
 				emitAndAbsorb(map[string]interface{}{"op": "release", "app": s.pickFrom(apps), "key": "k-unknown", "type": "STOPPED_BY_RM"})
 			}
